@@ -2,7 +2,7 @@
    a later change of a statement there makes this file fail). *)
 From Coq Require Import List ZArith String Bool Arith.
 Import ListNotations.
-From NV Require Import Delayed.Model Delayed.Spec Delayed.Tracked Delayed.Rel Delayed.Main Delayed.Refuted Delayed.ReachTable Props.C08.
+From NV Require Import Delayed.Model Delayed.Spec Delayed.Tracked Delayed.Rel Delayed.Main Delayed.Refuted Delayed.ReachTable Delayed.MergeTracked Props.C08.
 
 Check (C08_pending_tracked_at : forall es p i,
   prim_array_at es p i =
@@ -35,6 +35,10 @@ Check (C08_pending_tracked_record_lazy_app : forall c fs,
   view_rec (prim_record_lazy_app c fs) = map (fun kt => (fst kt, TCtr c (snd kt))) (view_rec (VRec fs))).
 Check (C08_pending_tracked_insert : forall k x fs v,
   prim_record_insert k x fs = Ok v -> view_rec v = view_rec (VRec fs) ++ [(k, x)]).
+Check (C08_pending_tracked_merge : forall m1 m2 fs, prim_record_merge m1 m2 = VRec fs ->
+  Forall (merged_from m1 m2) fs).
+Check (C08_pending_tracked_remove : forall k fs fs', prim_record_remove k fs = Ok (VRec fs') ->
+  forall f, In f fs' -> In f fs).
 Check (C08_pending_tracked_pipeline : forall ts es p v,
   run_pipeline ts (VArr es p) = Ok v ->
   exists es' p', v = VArr es' p' /\ view_arr v = spec_pipeline ts (view_arr (VArr es p))).
